@@ -34,7 +34,14 @@ def table_event(ch_name, mk, p1000, alphabet, dtype, shape, er, seed, N):
     ch = mk()
     ev = {"ev": "Table", "channel": ch_name, "alphabet": alphabet, "pn": p1000, "D": 1000, "er2": sint(er * 2), "cells": [], "input_unchanged": True, "shape_ok": True,
           "N": numel, "pairs": -1, "npairs": 0, "raised": False}
-    y = ch(x)
+    # calling contexts in turn: plain, under torch.no_grad(), under torch.inference_mode() (as the library's examples call the binary channels)
+    ctx = (None, torch.no_grad, torch.inference_mode)[seed % 3]
+    ev["context"] = "plain" if ctx is None else ctx.__name__
+    if ctx is None:
+        y = ch(x)
+    else:
+        with ctx():
+            y = ch(x)
     ev["input_unchanged"] = bool(torch.equal(before, x))
     ev["shape_ok"] = tuple(y.shape) == tuple(x.shape)
     xf = x.float().reshape(-1)
